@@ -11,8 +11,8 @@ namespace Pegtl
 def survStep (s : List Nat × List Ev) (e : Ev) : List Nat × List Ev :=
   match e with
   | .enter _ _ _ _ => (s.2.length :: s.1, s.2)
-  | .apply _ _ _ => (s.1, s.2 ++ [e])
-  | .apply0 _ _ => (s.1, s.2 ++ [e])
+  | .apply _ _ _ _ => (s.1, s.2 ++ [e])
+  | .apply0 _ _ _ => (s.1, s.2 ++ [e])
   | .exit _ r _ =>
     match s.1 with
     | [] => s
@@ -37,24 +37,27 @@ theorem Adds.append {a b sa sb : List Ev} (ha : Adds a sa) (hb : Adds b sb) : Ad
   rw [survRun_append, ha, hb, List.append_assoc]
 
 theorem Adds.hook {e : Ev} (h : (∀ i a m c, e ≠ .enter i a m c) ∧ (∀ i r c, e ≠ .exit i r c) ∧
-    (∀ i b c, e ≠ .apply i b c) ∧ (∀ i c, e ≠ .apply0 i c)) : Adds [e] [] := by
+    (∀ i sd b c, e ≠ .apply i sd b c) ∧ (∀ i sd c, e ≠ .apply0 i sd c)) : Adds [e] [] := by
   intro stk acc
   obtain ⟨h1, h2, h3, h4⟩ := h
   cases e with
   | enter i a m c => exact absurd rfl (h1 i a m c)
   | exit i r c => exact absurd rfl (h2 i r c)
-  | apply i b c => exact absurd rfl (h3 i b c)
-  | apply0 i c => exact absurd rfl (h4 i c)
+  | apply i sd b c => exact absurd rfl (h3 i sd b c)
+  | apply0 i sd c => exact absurd rfl (h4 i sd c)
+  | sctor d => simp [survRun, survStep]
+  | ssucc d c o => simp [survRun, survStep]
+  | sdtor d => simp [survRun, survStep]
   | start i c => simp [survRun, survStep]
   | success i c => simp [survRun, survStep]
   | failure i c => simp [survRun, survStep]
   | unwind i c => simp [survRun, survStep]
   | raise i c => simp [survRun, survStep]
 
-theorem Adds.act_apply (i : Nat) (b c : Cursor) : Adds [Ev.apply i b c] [Ev.apply i b c] := by
+theorem Adds.act_apply (i sd : Nat) (b c : Cursor) : Adds [Ev.apply i sd b c] [Ev.apply i sd b c] := by
   intro stk acc; simp [survRun, survStep]
 
-theorem Adds.act_apply0 (i : Nat) (c : Cursor) : Adds [Ev.apply0 i c] [Ev.apply0 i c] := by
+theorem Adds.act_apply0 (i sd : Nat) (c : Cursor) : Adds [Ev.apply0 i sd c] [Ev.apply0 i sd c] := by
   intro stk acc; simp [survRun, survStep]
 
 /-- What a body guarantees: if it matched, its trace adds exactly its surviving actions; otherwise
@@ -374,6 +377,27 @@ theorem BodySurv.guard_drop' {r : Ret} (h : BodySurv r) (m : RMode) (c : Cursor)
     simp [Ret.dropOnFail, guardRestore, hok']
   rw [this]; simpa using h.1 hok'
 
+theorem hook_sctor (d : Nat) : Adds [Ev.sctor d] [] := Adds.hook ⟨by simp, by simp, by simp, by simp⟩
+theorem hook_ssucc (d : Nat) (c : Cursor) (o : Nat) : Adds [Ev.ssucc d c o] [] := Adds.hook ⟨by simp, by simp, by simp, by simp⟩
+theorem hook_sdtor (d : Nat) : Adds [Ev.sdtor d] [] := Adds.hook ⟨by simp, by simp, by simp, by simp⟩
+
+/-- The events of a state object do not touch the transactional log. -/
+theorem BodySurv.scope {r : Ret} (h : BodySurv r) (cx : Ctx) (o : Nat) (b : Bool) : BodySurv (stateScope cx o b r) := by
+  have tail : ∀ (c : Prop) [Decidable c], Adds ((if c then [Ev.ssucc (o + 1) (cx.rep r.st.cur) o] else []) ++ [Ev.sdtor (o + 1)]) [] := by
+    intro c _
+    split
+    · simpa using (hook_ssucc _ _ _).append (hook_sdtor _)
+    · simpa using hook_sdtor (o + 1)
+  have shape : (stateScope cx o b r).raw = [Ev.sctor (o + 1)] ++ (r.raw ++
+      ((if r.res = .ok ∧ b = true then [Ev.ssucc (o + 1) (cx.rep r.st.cur) o] else []) ++ [Ev.sdtor (o + 1)])) := by
+    unfold stateScope; simp
+  refine ⟨fun hok => ?_, ?_⟩
+  · rw [shape]
+    have := (hook_sctor (o + 1)).append ((h.1 hok).append (tail (r.res = .ok ∧ b = true)))
+    simpa using this
+  · rw [shape]
+    exact weak_append (hook_sctor _).weak (weak_append h.2 (tail _).weak)
+
 theorem body_sv {rec : Rec} (hrec : SvRec rec) (cx : Ctx) (k : Nat) (kind : Kind) (a : AMode) (m : RMode) (env : Env)
     (st : St) (r : Ret) (h : body cx rec k kind a m env st = some r) : BodySurv r := by
   cases kind with
@@ -558,16 +582,20 @@ theorem body_sv {rec : Rec} (hrec : SvRec rec) (cx : Ctx) (k : Nat) (kind : Kind
   | enable c => simp only [body] at h; exact BodySurv.of_adds (hrec _ _ _ _ _ _ h).1
   | disable c => simp only [body] at h; exact BodySurv.of_adds (hrec _ _ _ _ _ _ h).1
   | action fam c => simp only [body] at h; exact BodySurv.of_adds (hrec _ _ _ _ _ _ h).1
+  | state d c =>
+    simp only [body, Option.map_eq_some_iff] at h
+    obtain ⟨r0, h0, rfl⟩ := h
+    exact (BodySurv.of_adds (hrec _ _ _ _ _ _ h0).1).scope _ _ _
 
 end Pegtl
 
 namespace Pegtl
 
-theorem actEvent_adds (cx : Ctx) (i : Nat) (act : ActionSpec) (b e : Cursor) :
-    Adds [actEvent cx i act b e] [actEvent cx i act b e] := by
+theorem actEvent_adds (cx : Ctx) (i : Nat) (act : ActionSpec) (sd : Nat) (b e : Cursor) :
+    Adds [actEvent cx i act sd b e] [actEvent cx i act sd b e] := by
   unfold actEvent; split
-  · exact Adds.act_apply _ _ _
-  · exact Adds.act_apply0 _ _
+  · exact Adds.act_apply _ _ _ _
+  · exact Adds.act_apply0 _ _ _
 
 theorem hook_start (i : Nat) (c : Cursor) : Adds [Ev.start i c] [] := Adds.hook ⟨by simp, by simp, by simp, by simp⟩
 theorem hook_success (i : Nat) (c : Cursor) : Adds [Ev.success i c] [] := Adds.hook ⟨by simp, by simp, by simp, by simp⟩
@@ -575,8 +603,8 @@ theorem hook_failure (i : Nat) (c : Cursor) : Adds [Ev.failure i c] [] := Adds.h
 theorem hook_unwind (i : Nat) (c : Cursor) : Adds [Ev.unwind i c] [] := Adds.hook ⟨by simp, by simp, by simp, by simp⟩
 theorem hook_raise (i : Nat) (c : Cursor) : Adds [Ev.raise i c] [] := Adds.hook ⟨by simp, by simp, by simp, by simp⟩
 
-theorem afterBody_sv (cx : Ctx) (i : Nat) (a : AMode) (act : ActionSpec) (saved : Cursor) (r : Ret) (h : BodySurv r) :
-    BodySurv (afterBody cx i a act saved r) := by
+theorem afterBody_sv (cx : Ctx) (i : Nat) (a : AMode) (act : ActionSpec) (sd : Nat) (saved : Cursor) (r : Ret) (h : BodySurv r) :
+    BodySurv (afterBody cx i a act sd saved r) := by
   unfold afterBody
   split
   · rename_i e he
@@ -595,17 +623,17 @@ theorem afterBody_sv (cx : Ctx) (i : Nat) (a : AMode) (act : ActionSpec) (saved 
     · refine ⟨fun ho => by simp at ho, ?_⟩
       simp only [List.append_assoc]
       apply weak_append hs.weak
-      apply weak_append (actEvent_adds _ _ _ _ _).weak
+      apply weak_append (actEvent_adds _ _ _ _ _ _).weak
       split
       · exact (hook_unwind _ _).weak
       · exact Adds.nil.weak
     · refine ⟨fun ho => by simp at ho, ?_⟩
-      have : r.raw ++ [actEvent cx i act saved r.st.cur, Ev.failure i (cx.rep r.st.cur)] =
-          r.raw ++ ([actEvent cx i act saved r.st.cur] ++ [Ev.failure i (cx.rep r.st.cur)]) := by simp
+      have : r.raw ++ [actEvent cx i act sd saved r.st.cur, Ev.failure i (cx.rep r.st.cur)] =
+          r.raw ++ ([actEvent cx i act sd saved r.st.cur] ++ [Ev.failure i (cx.rep r.st.cur)]) := by simp
       simp only [this]
-      exact weak_append hs.weak (weak_append (actEvent_adds _ _ _ _ _).weak (hook_failure _ _).weak)
+      exact weak_append hs.weak (weak_append (actEvent_adds _ _ _ _ _ _).weak (hook_failure _ _).weak)
     · apply BodySurv.of_adds
-      have := hs.append ((actEvent_adds cx i act saved r.st.cur).append (hook_success i (cx.rep r.st.cur)))
+      have := hs.append ((actEvent_adds cx i act sd saved r.st.cur).append (hook_success i (cx.rep r.st.cur)))
       simpa using this
 
 theorem nodeCore_sv {rec : Rec} (hrec : SvRec rec) (cx : Ctx) (k i : Nat) (nd : Node) (a : AMode) (m : RMode)
@@ -615,9 +643,9 @@ theorem nodeCore_sv {rec : Rec} (hrec : SvRec rec) (cx : Ctx) (k i : Nat) (nd : 
   · exact body_sv hrec cx k _ _ _ _ _ _ h
   · simp only [Option.map_eq_some_iff] at h
     obtain ⟨r0, h0, rfl⟩ := h
-    have hb := afterBody_sv cx i a (cx.actOf env i nd) st.cur r0 (body_sv hrec cx k _ _ _ _ _ _ h0)
+    have hb := afterBody_sv cx i a (cx.actOf env i nd) env.sd st.cur r0 (body_sv hrec cx k _ _ _ _ _ _ h0)
     refine ⟨fun hok => ?_, ?_⟩
-    · have hok' : (afterBody cx i a (cx.actOf env i nd) st.cur r0).res = .ok := by simpa using hok
+    · have hok' : (afterBody cx i a (cx.actOf env i nd) env.sd st.cur r0).res = .ok := by simpa using hok
       have := (hook_start i (cx.rep st.cur)).append (hb.1 hok')
       simpa [guardRestore, hok'] using this
     · simpa using weak_append (hook_start i (cx.rep st.cur)).weak hb.2
@@ -650,6 +678,12 @@ theorem nodeCall_sv {rec : Rec} (hrec : SvRec rec) (cx : Ctx) (k i : Nat) (a : A
       split
       · exact ⟨fun hok => by simp at hok, weak_append b.2 (hook_raise _ _).weak⟩
       · exact b
+    · simp only [Option.map_eq_some_iff] at h0
+      obtain ⟨r1, h1, rfl⟩ := h0
+      exact (nodeCore_sv hrec cx k i nd a m _ st r1 h1).scope _ _ _
+    · simp only [Option.map_eq_some_iff] at h0
+      obtain ⟨r1, h1, rfl⟩ := h0
+      exact (BodySurv.of_adds (hrec _ _ _ _ _ _ h1).1).scope _ _ _
 
 theorem run_sv (cx : Ctx) : ∀ n, SvRec (run cx n) := by
   intro n
